@@ -26,6 +26,20 @@ def mk_other_region(b, name):
     return b.new("Position")  # some object that is not a region
 
 
+class Shifted(object):
+    """A region translated by (vx, vy) (spec-level view)."""
+
+    def __init__(self, r, vx, vy):
+        for k in ("x1", "x2", "cx"):
+            if hasattr(r, "fields") and k in r.fields or (not hasattr(r, "fields") and hasattr(r, k)):
+                setattr(self, k, getattr(r, k) + vx)
+        for k in ("y1", "y2", "cy"):
+            if hasattr(r, "fields") and k in r.fields or (not hasattr(r, "fields") and hasattr(r, k)):
+                setattr(self, k, getattr(r, k) + vy)
+        if (hasattr(r, "fields") and "r" in r.fields) or (not hasattr(r, "fields") and hasattr(r, "r")):
+            self.r = r.r
+
+
 def containment_sound(f, outer_contains):
     """C17(c): reported containment implies point-set inclusion.  The universally quantified point is
     the ghost point (px, py): arbitrary when the method is verified, and the *caller's* ghost point when
@@ -56,8 +70,12 @@ def _(c):
 
 @contract("RectangularRegion.RectangularRegion.containsPoint")
 def _(c):
-    c.pre(lambda b: {"self": mk_rect(b, "self"), "args": {"x": b.real("x"), "y": b.real("y")}})
+    c.pre(lambda b: {"self": mk_rect(b, "self"), "args": {"x": b.real("x"), "y": b.real("y")},
+                     "ghost": {"vx": b.real("v.x"), "vy": b.real("v.y")}})
     c.modifies()
+    # C08 (Tr): translating region and point by the same vector does not change the answer
+    c.ensures("C08.translation-invariant", lambda f: Iff(f.result, G.rect_contains(
+        Shifted(f.self, f.g["vx"], f.g["vy"]), f.a.x + f.g["vx"], f.a.y + f.g["vy"])) if "vx" in f.g else True, props=("C08",))
     c.ensures("C17.closed-rectangle", lambda f: Iff(f.result, G.rect_contains(f.self, f.a.x, f.a.y)),
               props=("C17", "C01", "C12"))
     c.result("bool")
@@ -92,8 +110,11 @@ def _(c):
 
 @contract("CircularRegion.CircularRegion.containsPoint")
 def _(c):
-    c.pre(lambda b: {"self": mk_circle(b, "self"), "args": {"x": b.real("x"), "y": b.real("y")}})
+    c.pre(lambda b: {"self": mk_circle(b, "self"), "args": {"x": b.real("x"), "y": b.real("y")},
+                     "ghost": {"vx": b.real("v.x"), "vy": b.real("v.y")}})
     c.modifies()
+    c.ensures("C08.translation-invariant", lambda f: Iff(f.result, G.circle_contains(
+        Shifted(f.self, f.g["vx"], f.g["vy"]), f.a.x + f.g["vx"], f.a.y + f.g["vy"])) if "vx" in f.g else True, props=("C08",))
     c.ensures("C17.closed-disc", lambda f: Iff(f.result, G.circle_contains(f.self, f.a.x, f.a.y)),
               props=("C17", "C01", "C12"))
     c.result("bool")
